@@ -477,8 +477,50 @@ def nondet_confined(repo, fi, call, tag):
 # R4: caller-owned rules
 
 
+def caller_objects_untouched(chk, rid):
+  """Objects the caller hands to the compiler (rules, user flags ...) and that
+  the constructor keeps as they are (`self.x = param`, `self.x = param or {}`)
+  are never written to by any method: the caller reuses them for the next
+  compilation, which must not see what this one did."""
+  from sa import shapes
+  repo = chk.repo
+  n = 0
+  for modname, clsname in (('universe', 'Annotations'), ('universe', 'LogicaProgram'),
+                           ('functors', 'Functors')):
+    m = repo.by_name(modname)
+    ci = m.cls(clsname)
+    init = ci.methods.get('__init__')
+    if init is None:
+      continue
+    params = set(p_ for p_ in init.params if p_ != 'self')
+    kept = set()
+    for x in walk_local(init.node):
+      if isinstance(x, ast.Assign) and len(x.targets) == 1:
+        d = dotted(x.targets[0])
+        v = x.value
+        if isinstance(v, ast.BoolOp) and isinstance(v.op, ast.Or):
+          v = v.values[0]
+        if d and d.startswith('self.') and isinstance(v, ast.Name) and v.id in params:
+          kept.add(d)
+    for attr in sorted(kept):
+      bad = []
+      for fi in ci.methods.values():
+        for node, text in shapes.stores_into_arguments(fi.node, [], shared={attr}):
+          bad.append((fi, node, text))
+      n += 1
+      chk.ob(rid, not bad, None,
+             '%s.%s (an object of the caller) is never written to' % (clsname, attr[5:]),
+             '%s writes into the caller\'s object kept as %s (`%s`): the next '
+             'compilation that reuses it sees what this one stored'
+             % (bad[0][0].qualname if bad else '', attr, bad[0][2] if bad else ''),
+             fi=bad[0][0] if bad else init, node=bad[0][1] if bad else None)
+  if n < 2:
+    raise AnalysisError('constructors keeping caller objects not recognised')
+
+
 def caller_owned(chk, rid):
   repo = chk.repo
+  caller_objects_untouched(chk, rid)
   # Functors.__init__: extended_rules is a deep copy
   fi = repo.func('functors.Functors.__init__')
   ok = False
